@@ -1466,8 +1466,32 @@ def fn_update(ctx, sf, case, fx=None):
         prev = corr
 
 
+def fn_compat(ctx, sf, case, fx=None):
+    """tdm.utils.make_phases_compatible by itself (own float accumulation): loop 0 unchanged, other phases changed by 0 or pi, and
+    afterwards phase + accumulated offset of the loop − accumulated offset of the loop before lies in [-pi/2, pi/2] (mod 2 pi)"""
+    from strawberryfields.tdm import utils as tu
+    L, offs, phis = case["L"], case["offs"], case["phis"]
+    d = {"Sgate": [0.0] * L, "loops": {i: {"Rgate": [x * PI for x in phis[i]], "BSgate": [0.0] * L} for i in range(3)}}
+    out = tu.make_phases_compatible(d, types.SimpleNamespace(certificate={"loop_phases": [o * PI for o in offs]}))
+    prev = np.zeros(L)
+    for i in range(3):
+        src = np.array([x * PI for x in phis[i]], dtype=float)
+        new = np.array(out["loops"][i]["Rgate"], dtype=float)
+        corr = np.array([offs[i] * PI * (j // DELAYS[i]) for j in range(L)])
+        if i == 0:
+            bad = L and np.max(np.abs(new - src)) > 0
+        else:
+            w = wrap_to_pi(new + corr - prev)
+            bad = L and (np.max(np.abs(wrap_to_pi(2 * (new - src))) / 2) > 1e-9 or np.max(np.abs(w)) > PI / 2 + 1e-9)
+        if bad:
+            ctx.fail("fn:make_phases_compatible", f"certificate loop phases {[o * PI for o in offs]}: loop {i} phases are not the input up to pi with the "
+                     "compensated value inside [-pi/2, pi/2]", dict(kind="fn", fn="compat", case=case))
+            return
+        prev = corr
+
+
 FN_ORACLES = dict(ranges=fn_ranges, validate=fn_validate, init=fn_init, **{"assert": fn_assert}, tdm_assert=fn_tdm_assert, dups=fn_dups,
-                  offsets=fn_offsets, update=fn_update)
+                  offsets=fn_offsets, update=fn_update, compat=fn_compat)
 
 
 def fn_check(ctx, sf, name, case, fx=None):
@@ -1993,6 +2017,120 @@ def corr_xchecks(ctx, sf):
     return reqs, pend
 
 
+def corr_extra(ctx, sf, fx):
+    """Borealis.add_loss, tdm.utils.make_phases_compatible, the hard-coded-parameter rule of Compiler.compile and the
+    fixed-value rule of validate_gate_parameters"""
+    import blackbird
+    import strawberryfields.ops as ops
+    import strawberryfields.compilers.tdm as tdmc
+    import strawberryfields.program_utils as pu
+    from strawberryfields.compilers import Compiler
+    from strawberryfields.parameters import par_evaluate
+    from strawberryfields.tdm import utils as tu
+    from fractions import Fraction
+    rng = ctx.rng
+    reqs, pend = [], []
+    # ---- add_loss on arbitrary TDM circuits
+    for _ in range(ctx.n(40, 300)):
+        tb = rng.randint(1, 20)
+        seq = []
+        for _k in range(rng.randint(1, 7)):
+            c = rng.choice(["Sgate", "Rgate", "BSgate", "BSgate"])
+            seq.append([c, rng.sample(range(3), 2) if c == "BSgate" else [rng.randrange(3)]])
+        seq.append(["MeasureFock", [0]])
+        prog = sf.TDMProgram(N=3)
+        with prog.context([0.1] * tb, [0.2] * tb, [0.3] * tb) as (p, q):
+            for c, regs in seq:
+                if c == "Sgate":
+                    ops.Sgate(p[0]) | q[regs[0]]
+                elif c == "Rgate":
+                    ops.Rgate(p[1]) | q[regs[0]]
+                elif c == "BSgate":
+                    ops.BSgate(p[2], PI / 2) | (q[regs[0]], q[regs[1]])
+                else:
+                    ops.MeasureFock() | q[0]
+        nloops = rng.randint(0, 4)
+        cert = {"common_efficiency": dy(rng, 0, 1), "loop_efficiencies": [dy(rng, 0, 1) for _ in range(nloops)],
+                "relative_channel_efficiencies": [0.5 + 0.03125 * k for k in range(16)]}
+        cert0 = copy.deepcopy(cert)
+        dev = types.SimpleNamespace(certificate=cert)
+        try:
+            tdmc.Borealis().add_loss(prog, dev)
+            impl = []
+            for c in prog.circuit:
+                if isinstance(c.op, ops.LossChannel):
+                    try:
+                        impl.append(["LossChannel", [r.ind for r in c.reg], F(float(par_evaluate(c.op.p[0])))])
+                    except Exception:  # noqa: BLE001
+                        impl.append(["LossChannel", [r.ind for r in c.reg], "param"])
+                else:
+                    impl.append([type(c.op).__name__, [r.ind for r in c.reg]])
+            tiled = (cert0["relative_channel_efficiencies"] * ((tb + 15) // 16))[:tb]
+            if [float(x) for x in prog.tdm_params[-1]] != tiled or cert != cert0:
+                ctx.fail("fn:add_loss:efficiencies", "add_loss: per-bin detection efficiencies are not the tiled certificate values, or the certificate was edited",
+                         dict(kind="none"))
+        except IndexError:
+            impl = None
+        case = dict(seq=seq, nloops=nloops)
+        ctx.count("corr:add_loss", case, impl is not None and sum(1 for c, _ in seq if c == "BSgate") >= 2)
+        reqs.append(dict(op="hw.addLoss", circ=seq, glob=F(cert0["common_efficiency"]), loops=[F(x) for x in cert0["loop_efficiencies"]]))
+        pend.append(("Borealis.add_loss", case, impl))
+    # ---- make_phases_compatible on rational multiples of pi (odd denominators: no value sits on the +-pi/2 boundary)
+    for _ in range(ctx.n(50, 400)):
+        L = rng.randint(1, 45)
+        den = rng.choice([7, 9, 11, 13])
+        offs = [rng.choice([0.0, rng.randint(-2 * den, 2 * den) / den, rng.randint(-2 * den, 2 * den) / den]) for _ in range(3)]
+        phis = [[rng.randint(-3 * den, 3 * den) / (den * rng.choice([1, 3])) for _ in range(L)] for _ in range(3)]
+        d = {"Sgate": [0.0] * L, "loops": {i: {"Rgate": [x * PI for x in phis[i]], "BSgate": [0.0] * L} for i in range(3)}}
+        d0 = copy.deepcopy(d)
+        out = tu.make_phases_compatible(d, types.SimpleNamespace(certificate={"loop_phases": [o * PI for o in offs]}))
+        impl = [[float(v) / PI for v in out["loops"][i]["Rgate"]] for i in range(3)]
+        if d != d0:
+            ctx.fail("fn:make_phases_compatible:input-mutated", "make_phases_compatible changed its input", dict(kind="none"))
+        case = dict(L=L, offs=offs, phis=phis)
+        ctx.count("corr:make_phases_compatible", case, L >= 7)
+        fr = lambda x: [Fraction(x).limit_denominator(1000).numerator, Fraction(x).limit_denominator(1000).denominator]
+        reqs.append(dict(op="hw.compatible", len=L, loops=[[fr(offs[i]), DELAYS[i], [fr(x) for x in phis[i]]] for i in range(3)]))
+        pend.append(("tdm.utils.make_phases_compatible", case, impl))
+        fn_check(ctx, sf, "compat", case)
+    # ---- parameter rules: Compiler.compile (hard-coded layout parameters), validate_gate_parameters (fixed layout values)
+    for _ in range(ctx.n(60, 500)):
+        def larg():
+            u = rng.random()
+            return rng.choice([0.5, 0.0, 0.25]) if u < 0.5 else ("sym:r%d" % rng.randint(0, 1) if u < 0.85 else "2*r0")
+        def parg():
+            u = rng.random()
+            return rng.choice([0.5, 0.0, 0.25, 0.500004, 0.50002]) if u < 0.8 else "x"
+        la, pa = [larg(), larg()], [parg(), parg()]
+        txt = lambda a: ("{" + a[4:] + "}") if isinstance(a, str) and a.startswith("sym:") else ("2*{r0}" if a == "2*r0" else repr(a))
+        layout = f"name t\nversion 1.0\n\nSgate({txt(la[0])}, {txt(la[1])}) | 0\n"
+        prog = sf.Program(1)
+        x = prog.params("x")
+        with prog.context as q:
+            ops.Sgate(*[x if a == "x" else a for a in pa]) | q[0]
+
+        class Scratch(Compiler):
+            interactive = False
+            primitives = {"Sgate"}
+            decompositions = {}
+        Scratch.init_circuit(layout)
+        try:
+            Scratch().compile(prog.circuit, prog.register)
+            clash = False
+        except pu.CircuitError as e:
+            clash = "parameter values" in str(e)
+        impl = dict(clash=clash)
+        if "x" not in pa:
+            bbp = blackbird.loads("name t\nversion 1.0\n\nSgate(%r, %r) | 0\n" % (pa[0], pa[1]))
+            impl["fixed"] = bool(pu._fixed_layout_values_match(blackbird.loads(layout), bbp))
+        case = dict(layout=la, prog=pa)
+        ctx.count("corr:param_rules", case, clash or impl.get("fixed") is False)
+        enc = lambda a: ([Fraction(a).limit_denominator(10 ** 7).numerator, Fraction(a).limit_denominator(10 ** 7).denominator] if not isinstance(a, str) else a)
+        reqs.append(dict(op="hw.paramRules", layout=[enc(a) for a in la], prog=[enc(a) for a in pa]))
+        pend.append(("parameter rules", case, impl))
+    return reqs, pend
+
+
 def canon(pair, model, impl, case):
     """returns (model', impl') to be compared exactly, or None when they agree by the pair's own rule"""
     if pair == "rectangular_symmetric mode pairs":
@@ -2003,6 +2141,21 @@ def canon(pair, model, impl, case):
     if pair == "X compile skeleton":
         m = dict(compiled=[list(x) for x in model["compiled"]], layout=[list(x) for x in model["layout"]], s2perm=True)
         return m, impl
+    if pair == "Borealis.add_loss":
+        return model, (None if impl is None else [list(x) for x in impl])
+    if pair == "parameter rules":
+        return ({k: model[k] for k in impl}, impl)
+    if pair == "tdm.utils.make_phases_compatible":
+        if len(model) != len(impl):
+            return model, impl
+        for lm, li in zip(model, impl):
+            if len(lm) != len(li):
+                return model, impl
+            for (p_, q_), y in zip(lm, li):
+                d_ = abs(p_ / q_ - y) % 2
+                if min(d_, 2 - d_) > 1e-9:
+                    return model, impl
+        return None
     if pair == "Borealis.update_params":
         # exact rationals vs float64: compare at 1e-9, except where the exact value sits on a branch boundary
         if len(model) != len(impl):
@@ -2085,6 +2238,8 @@ def run(ctx, sf):
         reqs, pend = fn(ctx, sf)
         compare(ctx, reqs, pend)
     reqs, pend = corr_borealis(ctx, sf, fx)
+    compare(ctx, reqs, pend)
+    reqs, pend = corr_extra(ctx, sf, fx)
     compare(ctx, reqs, pend)
     # ---- oracle
     rng = ctx.rng
@@ -2201,6 +2356,8 @@ def replay(ctx, rp):
         borealis_oracle(ctx, sf, fixture_ns(sf), rp, count=False)
     elif rp["kind"] == "tdm1":
         tdm1_oracle(ctx, sf, rp, count=False)
+    elif rp["kind"] == "none":
+        return False
     elif rp["kind"] == "fn":
         fn_check(ctx, sf, rp["fn"], rp["case"], fixture_ns(sf))
     elif rp["kind"] == "history":
